@@ -101,6 +101,32 @@ def correspondence(ctx):
         s.meta = {"flip": "%d.%d" % (p, bit)}
         scns.append(s)
     must_fail_at(ctx, "bit-flip", scns, lambda s: target)
+    # the same on the LAST processed block — the tip of the chain, or height `--end` — where a flip that enlarges a count or a
+    # length makes the parser run into the end of the file: that, too, is a failure of this run, never `no more blocks`
+    for last_kind in ("tip", "end"):
+        tgt = 3 if last_kind == "tip" else 2
+        raw = blocks[tgt].enc()
+        hi = [(p, 7) for p in range(hdr_len, len(raw))] + [(p, 6) for p in range(hdr_len, len(raw), 3)]
+        allb = [(p, b) for p in range(hdr_len, len(raw)) for b in range(8)]
+        pos2 = allb if ctx.thorough() else hi + [allb[r.randrange(len(allb))] for _ in range(ctx.n(60, 0))]
+        scns = []
+        for (p, bit) in pos2:
+            s = K.Scenario(coin=coin, callback=r.choice(["csvdump", "csvdump", "unspentcsvdump"]), verify=True, start=1)
+            if last_kind == "end":
+                s.stop = tgt
+            GC.simple_layout(s, blocks)
+            name = K.blkname(0)
+            segs = s.files[name]["segs"]
+            for k, (off, data) in enumerate(segs):
+                if data[8:] == raw:
+                    d = bytearray(data)
+                    d[8 + p] ^= 1 << bit
+                    segs[k] = (off, bytes(d))
+            s.meta = {"flip-last": "%s %d.%d" % (last_kind, p, bit)}
+            scns.append(s)
+        # a flip inside the transaction-count / padding that leaves every txid and the header untouched cannot be detected and is
+        # not in the property's domain; positions >= hdr_len + 1 are transaction data; position hdr_len is the tx count
+        must_fail_at(ctx, "bit-flip-last:" + last_kind, scns, lambda s, tgt=tgt: tgt)
     # block swapped for a foreign (internally consistent) one
     scns = []
     for k in range(ctx.n(10, 60)):
